@@ -41,6 +41,8 @@ type Solver struct {
 
 	ufDeclared map[string]bool
 	seed       int
+	usePushPop bool
+	paths      int
 	tsize      map[*Term]int
 	texts      map[*Term]*termText
 	bodies     map[*Term]*termText
@@ -75,6 +77,7 @@ func NewSolver(name string, tt *TermTable, timeoutMs int, seed int, logw io.Writ
 	}
 	s := &Solver{name: name, cmd: cmd, in: in, w: bufio.NewWriterSize(in, 1<<16), out: bufio.NewReaderSize(outp, 1<<20), tt: tt, defined: map[int]bool{}, log: logw, timeout: timeoutMs}
 	s.seed = seed
+	s.usePushPop = os.Getenv("GOSMT_RESET") == ""
 	s.options()
 	return s, nil
 }
@@ -94,11 +97,30 @@ func (s *Solver) options() {
 // get-value slows down linearly with the number of accumulated definitions,
 // so definitions are re-sent per path instead of being kept globally.
 func (s *Solver) Reset() {
+	if s.usePushPop {
+		if s.level > 0 {
+			s.send("(pop 1)")
+		}
+		s.send("(push 1)")
+		s.level = 1
+		s.defined = map[int]bool{}
+		s.ufDeclared = nil
+		s.paths++
+		if s.paths%500 != 0 {
+			return
+		}
+		// occasionally start from scratch to bound solver memory
+		s.send("(pop 1)")
+	}
 	s.send("(reset)")
 	s.level = 0
 	s.defined = map[int]bool{}
 	s.ufDeclared = nil
 	s.options()
+	if s.usePushPop {
+		s.send("(push 1)")
+		s.level = 1
+	}
 }
 
 func (s *Solver) Close() {
